@@ -12,12 +12,16 @@ class Number(Token):
         self.is_neg = False
 
     def set_value(self, value: str):
-        if value.isdigit():
-            self.value = int(value)
-        elif value.endswith("."):
-            self.value = int(value.removesuffix("."))
-        else:
-            self.value = float(value)
+        try:
+            if value.endswith("."):
+                self.value = int(value.removesuffix("."))
+            else:
+                try:
+                    self.value = int(value)
+                except ValueError:
+                    self.value = float(value)
+        except ValueError:
+            raise ExpectedTokenError(self.stack, f"'{value}' is not a valid number.")
 
         return self.value
 
